@@ -161,4 +161,27 @@ example : lexAll (frameSrc ff0 [116, 49] exBody) false = .items (frameItems ff0 
     simp only [Option.some.injEq, Prod.mk.injEq] at h
     rw [← h.1]; decide⟩ exBody exBody_wf exBody_canon
 
+open SoyVerif.Props.C17d (IdentOk nsSrc nsFileItems)
+
+/-- `namespace_frame_spec` without table hypotheses -/
+theorem namespace_frame_spec (ff : UInt64 → Bytes) (pf : Bytes → Option UInt64) (ns nm : Bytes) (hns : IdentOk ns)
+    (hnm : NameOk nm) (b : CBody) (hw : WFL ff b) (hc : CanonB ff pf b) :
+    lexAll (nsSrc ff ns nm b) false = .items (nsFileItems ff ns nm b) ∧
+      ∃ npos tpos lp nl, parseSource pf (nsSrc ff ns nm b) =
+          .ok [Node.nspace npos ns .unspecified, Node.template tpos (ns ++ 46 :: nm) (.list lp nl) .unspecified false] ∧
+        NodesMatch nl.toList b :=
+  SoyVerif.Props.C17d.namespace_frame_spec ff pf lexTableOK tableOK ns nm hns hnm b hw hc
+
+/-- non-vacuity: `{namespace ex}⏎{template .t1}Hi {$a ?: -1|truncate:$b ? 1 : 2,-3|id}⏎␣␣{$a}!{/template}⏎` -/
+example : lexAll (nsSrc ff0 [101, 120] [116, 49] exBody) false = .items (nsFileItems ff0 [101, 120] [116, 49] exBody) ∧
+    ∃ npos tpos lp nl, parseSource pf0 (nsSrc ff0 [101, 120] [116, 49] exBody) =
+        .ok [Node.nspace npos [101, 120] .unspecified,
+          Node.template tpos [101, 120, 46, 116, 49] (.list lp nl) .unspecified false] ∧ NodesMatch nl.toList exBody :=
+  namespace_frame_spec ff0 pf0 [101, 120] [116, 49] ⟨101, [120], rfl, by decide, by decide, by decide⟩
+    ⟨116, [49], rfl, by decide, by decide, fun r w h => by
+      have e : SoyVerif.Lemmas.LexPrint.runeAt [116, 49] = some (116, 1) := by decide
+      rw [e] at h
+      simp only [Option.some.injEq, Prod.mk.injEq] at h
+      rw [← h.1]; decide⟩ exBody exBody_wf exBody_canon
+
 end SoyVerif.Inst.C17c
